@@ -89,7 +89,7 @@ fn privacy(e: &'static Engine, workers: usize, n: usize, rounds: usize, timed: b
 }
 
 #[derive(Clone, Copy, PartialEq, Debug)]
-enum Prev {
+pub enum Prev {
     Returned,
     Panicked,
     CancelledParked,
@@ -103,11 +103,17 @@ enum Prev {
     TimedOutParkVsUnpark,
     /// Blocker::park(1 ms) whose expiry meets Blocker::unpark() at the same instant
     TimedOutBlockerVsUnpark,
+    /// a cancel request arrives while it is running, then it panics with an ordinary panic; a destructor on its stack
+    /// yields during that unwind
+    PanickedCancelPendingYieldingDrop,
 }
+
+static PREV_RUNNING: AtomicBool = AtomicBool::new(false);
+static PREV_GO: AtomicBool = AtomicBool::new(false);
 
 /// how the fresh coroutine ends after its first park returned
 #[derive(Clone, Copy, PartialEq, Debug)]
-enum End {
+pub enum End {
     Returns,
     /// cancelled while parked: its join must report Cancel and nothing else
     Cancelled,
@@ -136,7 +142,7 @@ impl Drop for YieldOnDrop {
 
 /// pool capacity 1, one worker: the fresh coroutine F provably reuses the stack of the previous occupant P
 /// `detached`: P's JoinHandle is dropped before P runs (nobody collects its result)
-fn fresh_start(e: &'static Engine, prev: Prev, workers: usize, detached: bool, end: End) {
+pub fn fresh_start(e: &'static Engine, prev: Prev, workers: usize, detached: bool, end: End) {
     rt_init_opts(workers, 1, 0x4000, 3_600_000_000_000);
     e.begin();
     let p = go!(move || {
@@ -166,6 +172,13 @@ fn fresh_start(e: &'static Engine, prev: Prev, workers: usize, detached: bool, e
                 let b = Blocker::current();
                 let _ = b.park(Some(Duration::from_millis(1)));
             }
+            Prev::PanickedCancelPendingYieldingDrop => {
+                let _g = YieldOnDrop;
+                PREV_RUNNING.store(true, Ordering::SeqCst);
+                // not a yield point: the worker thread itself waits here
+                e.wait_flag(&PREV_GO);
+                panic!("ordinary panic with a cancel pending");
+            }
             Prev::TimedOutParkVsUnpark => coroutine::park_timeout(Duration::from_millis(1)),
             Prev::TimedOutBlockerVsUnpark => {
                 let b = Blocker::current();
@@ -175,6 +188,11 @@ fn fresh_start(e: &'static Engine, prev: Prev, workers: usize, detached: bool, e
         }
     });
     match prev {
+        Prev::PanickedCancelPendingYieldingDrop => {
+            e.wait_flag(&PREV_RUNNING);
+            unsafe { p.coroutine().cancel() };
+            PREV_GO.store(true, Ordering::SeqCst);
+        }
         Prev::TimedOutParkVsUnpark => {
             e.vsleep(1_000_000);
             p.coroutine().unpark();
@@ -277,6 +295,7 @@ pub fn build(quick: bool) -> Vec<Scenario> {
         Prev::TimedOutBlocker,
         Prev::TimedOutParkVsUnpark,
         Prev::TimedOutBlockerVsUnpark,
+        Prev::PanickedCancelPendingYieldingDrop,
     ] {
         let timed = matches!(prev, Prev::TimedOutPark | Prev::TimedOutSleep | Prev::TimedOutBlocker | Prev::TimedOutParkVsUnpark | Prev::TimedOutBlockerVsUnpark);
         let s = Scenario::new("C15", "fresh_start", format!("fresh.after_{:?}.w1", prev).to_lowercase(), Arc::new(move |e| fresh_start(e, prev, 1, false, End::Returns)));
